@@ -94,7 +94,7 @@ def run(res, tier, seed):
                    gaps=[b - a - 1 for a, b in zip(lns, lns[1:]) if b - a > 1][:5], seed=seed)
         kind, out = call_impl(cal, chan, lns, prt3, ict10, space10, counts)
         if kind != 3:
-            res.violations.append(("calibrate_thermal did not return brightness temperatures on a well-formed pass (kind %d)" % kind, ctx))
+            res.violations.append(("calibrate_thermal did not return brightness temperatures on a well-formed pass (kind %d)" % kind, dict(ctx, line_numbers=list(lns), prt_x3=list(prt3), ict_x10=[x[chan] for x in ict10], space_x10=[x[chan] for x in space10])))
             continue
         prt = [x / 3.0 for x in prt3]
         exp, smoothed = thermal.spec_bt(co, chan, lns, residue, prt, [x[chan] / 10.0 for x in ict10], [x[chan] / 10.0 for x in space10],
